@@ -49,7 +49,9 @@ CONSTANTS Forms,        \* subset of {"csrwild","coowild","csr","coo","empty","d
           OpForms,      \* ... for input of these forms (no operations for the other forms)
           MaxE,         \* bound on the binary exponent (number of nested divisions)
           StrictOrder,  \* design: TRUE  (FALSE = numpy.greater_equal, the pinned code)
-          LowerBound    \* design: TRUE  (FALSE = no colidx >= 0 test, the pinned code)
+          LowerBound,   \* design: TRUE  (FALSE = no colidx >= 0 test, the pinned code)
+          CacheCopies   \* design: TRUE = the submatrix cache keeps its own copy of the selection masks (FALSE = it keeps the
+                        \* caller's mask objects, the pinned code: a caller that reuses and overwrites its mask buffer gets a stale hit)
 
 VARIABLES pc, inp, csr, pend, regs, cache, acc, brow, hist, verdict
 vars == <<pc, inp, csr, pend, regs, cache, acc, brow, hist, verdict>>
@@ -60,7 +62,8 @@ CooForms == {"coowild", "coo"}
 DummyCSR == [v |-> <<>>, rp |-> <<>>, ci |-> <<>>, n |-> 0, e |-> 0]
 DummyCOO == [v |-> <<>>, ri |-> <<>>, m |-> 0, ci |-> <<>>, n |-> 0]
 DummyAux == [m |-> 0, n |-> 0, hs |-> <<>>, ws |-> <<>>, nv |-> 0]
-NoCache == [valid |-> FALSE, rows |-> <<>>, cols |-> <<>>, res |-> Mat(0, 0, 0, <<>>)]
+\* buf: the cached key objects are the caller's reusable mask buffer; brows/bcols: what that buffer holds now
+NoCache == [valid |-> FALSE, rows |-> <<>>, cols |-> <<>>, res |-> Mat(0, 0, 0, <<>>), buf |-> FALSE, brows |-> <<>>, bcols |-> <<>>]
 EmptyAcc == [v |-> <<>>, rp |-> <<0>>, ci |-> <<>>]
 
 \* distinct nonzero values; complex ones have a nonzero (odd) imaginary part
@@ -314,16 +317,23 @@ DoSub(a, b) == /\ CanOp("sub") /\ SameShape(a, b) /\ Small(regs[a]) /\ Small(reg
 
 \* Matrix.submatrix with its one-entry cache
 AllTrue(b) == \A k \in 1..Len(b) : b[k]
-DoSubmatrix(a, rows, cols) ==
+\* reuse: the caller passes its own persistent mask buffer (one per matrix object), overwritten in place with this selection
+DoSubmatrix(a, rows, cols, reuse) ==
     /\ CanOp("submatrix")
     /\ LET M == regs[a]
-           hit == cache[a].valid /\ cache[a].rows = rows /\ cache[a].cols = cols
+           c == cache[a]
+           \* the cached key as the comparison sees it: its own copy, or the caller's buffer with whatever that holds now
+           keyrows == IF ~CacheCopies /\ c.buf THEN (IF reuse THEN rows ELSE c.brows) ELSE c.rows
+           keycols == IF ~CacheCopies /\ c.buf THEN (IF reuse THEN cols ELSE c.bcols) ELSE c.cols
+           hit == c.valid /\ keyrows = rows /\ keycols = cols
            res == IF AllTrue(rows) /\ AllTrue(cols) THEN M                      \* return self
-                  ELSE IF hit THEN cache[a].res                                 \* return self._cached_submatrix
+                  ELSE IF hit THEN c.res                                        \* return self._cached_submatrix
                   ELSE MSelect(M, rows, cols)                                   \* self._submatrix(rows, cols)
-       IN /\ Push(res, OpRec("submatrix", a, 0, Z0, rows, cols, New))
-          /\ cache' = Append(IF (AllTrue(rows) /\ AllTrue(cols)) \/ hit THEN cache
-                             ELSE [cache EXCEPT ![a] = [valid |-> TRUE, rows |-> rows, cols |-> cols, res |-> res]], NoCache)
+           nb == IF reuse THEN [brows |-> rows, bcols |-> cols] ELSE [brows |-> c.brows, bcols |-> c.bcols]
+           entry == IF (AllTrue(rows) /\ AllTrue(cols)) \/ hit THEN [c EXCEPT !.brows = nb.brows, !.bcols = nb.bcols]
+                    ELSE [valid |-> TRUE, rows |-> rows, cols |-> cols, res |-> res, buf |-> reuse, brows |-> nb.brows, bcols |-> nb.bcols]
+       IN /\ Push(res, OpRec(IF reuse THEN "submatrix_reuse" ELSE "submatrix", a, 0, Z0, rows, cols, New))
+          /\ cache' = Append([cache EXCEPT ![a] = entry], NoCache)
 
 \* pickle: __reduce__ exports CSR and the unpickler calls assemble_csr on it
 DoPickle(a) ==
@@ -339,7 +349,7 @@ OpScale == \E a \in 1..Len(regs) : \E s \in Scalars : DoScale(a, s)
 OpDiv == \E a \in 1..Len(regs) : DoDiv(a)
 OpAdd == \E a \in 1..Len(regs) : \E b \in 1..Len(regs) : DoAdd(a, b)
 OpSub == \E a \in 1..Len(regs) : \E b \in 1..Len(regs) : DoSub(a, b)
-OpSubmatrix == \E a \in 1..Len(regs) : \E rows \in [1..regs[a].m -> BOOLEAN], cols \in [1..regs[a].n -> BOOLEAN] : DoSubmatrix(a, rows, cols)
+OpSubmatrix == \E a \in 1..Len(regs) : \E rows \in [1..regs[a].m -> BOOLEAN], cols \in [1..regs[a].n -> BOOLEAN], reuse \in BOOLEAN : DoSubmatrix(a, rows, cols, reuse)
 OpPickle == \E a \in 1..Len(regs) : DoPickle(a)
 
 Next == \/ ChooseInput \/ ChoosePattern \/ GenBlock \/ BlockRow \/ BlockFinish \/ Compress
@@ -399,7 +409,7 @@ CacheTransparent == \A a \in 1..Len(cache) : cache[a].valid => cache[a].res = MS
 \* one: every prefix of a behaviour is itself a reachable state)
 StepsFaithful == \A q \in {Len(hist)} \ {0} :
                     LET h == hist[q] IN
-                    CASE h.op = "submatrix" -> regs[h.r] = (IF AllTrue(h.rows) /\ AllTrue(h.cols) THEN regs[h.a] ELSE MSelect(regs[h.a], h.rows, h.cols))
+                    CASE h.op \in {"submatrix", "submatrix_reuse"} -> regs[h.r] = (IF AllTrue(h.rows) /\ AllTrue(h.cols) THEN regs[h.a] ELSE MSelect(regs[h.a], h.rows, h.cols))
                       [] h.op = "pickle" -> regs[h.r] = regs[h.a]
                       [] h.op = "sub" -> IsZero(MAdd(regs[h.r], MSub(regs[h.b], regs[h.a])))
                       [] OTHER -> TRUE
